@@ -44,6 +44,7 @@ def abstract_nonlinear(conds):
     ufs = {}
     hit = [False]
     apps = []
+    divapps = []
 
     def uf(nm, w):
         f = ufs.get(nm)
@@ -70,6 +71,8 @@ def abstract_nonlinear(conds):
                 r = uf(nm, w)(a, b)
                 if kind == z3.Z3_OP_BMUL:
                     apps.append((w, a, b))
+                elif _NONLINEAR[kind] in ("udiv", "urem"):
+                    divapps.append((_NONLINEAR[kind], w, a, b))
                 hit[0] = True
         if r is None:
             if any(c.get_id() != o.get_id() for c, o in zip(ch, e.children())):
@@ -85,6 +88,25 @@ def abstract_nonlinear(conds):
         return None
     # sound facts about multiplication that the abstraction would otherwise forget: it is commutative, and the low k bits
     # of a product are the product of the low k bits (compilers narrow (int)((long)a * b) to a 32-bit multiply)
+    def zext_src(x):
+        """x == zero_extend(y) syntactically: return y"""
+        if z3.is_app(x):
+            k = x.decl().kind()
+            if k == z3.Z3_OP_ZERO_EXT:
+                return x.arg(0)
+            if k == z3.Z3_OP_CONCAT and x.num_args() >= 2 and z3.is_bv_value(x.arg(0)) and x.arg(0).as_long() == 0:
+                rest = [x.arg(i) for i in range(1, x.num_args())]
+                return rest[0] if len(rest) == 1 else z3.Concat(*rest)
+        return None
+    # unsigned division / remainder of two zero-extended k-bit operands is the zero-extended k-bit result (LLVM narrows these)
+    for (nm, w, a, b) in list(divapps):
+        ya, yb = zext_src(a), zext_src(b)
+        if ya is not None and yb is not None:
+            k = max(ya.size(), yb.size())
+            if k < w:
+                ya2 = ya if ya.size() == k else z3.ZeroExt(k - ya.size(), ya)
+                yb2 = yb if yb.size() == k else z3.ZeroExt(k - yb.size(), yb)
+                out.append(uf("%s%d" % (nm, w), w)(a, b) == z3.ZeroExt(w - k, uf("%s%d" % (nm, k), k)(ya2, yb2)))
     widths = sorted(set(w for w, _, _ in apps))
     seen = set()
     for w, a, b in list(apps):
@@ -665,6 +687,11 @@ class Engine:
         for c in conds:
             s.add(c)
         r = s.check()
+        if r == z3.unknown:
+            try:
+                self.last_unknown = s.reason_unknown()
+            except Exception:
+                self.last_unknown = "?"
         return r, (s.model() if r == z3.sat else None)
 
     def check_sat(self, conds, recheck=True):
@@ -697,7 +724,8 @@ class Engine:
             if r2 == z3.unsat:
                 self.abstracted = getattr(self, "abstracted", 0) + 1
                 return "unsat", None
-        if full > short:
+        for attempt in range(3):
+            # full timeout; an 'unknown' that is not a timeout (resource exhaustion while the machine is busy) is retried
             t0 = time.time()
             self.queries += 1
             r, mdl = self._fresh_check(conds)
@@ -706,6 +734,9 @@ class Engine:
                 return "sat", mdl
             if r == z3.unsat:
                 return "unsat", None
+            if "timeout" in str(getattr(self, "last_unknown", "")) or "canceled" in str(getattr(self, "last_unknown", "")):
+                break
+            time.sleep(3)
         return "unknown", None
 
     def second_opinion(self, conds):
